@@ -174,8 +174,8 @@ P["C14"] = {
     "verus": [{"unit": "alloc", "functions": ALLOC_CORE + LAYOUT}],
     "kani": [],
     "explanation": "Every clause of the statement is a postcondition over the set of free pages (free_set = {p | st().cov(0,p)}) of the REAL bodies of bitmap.rs, buddy_allocator.rs, region.rs and allocate_helper_retry, extracted from /repo on every run and verified by Verus for all sizes, orders and states: blocks handed out lie inside the region and were free (alloc/alloc_inner, and alloc_lowest with its allocate-compare-free-split loops), refusal only when nothing of that order or larger is free (with lemma_bridge: no aligned free block exists), free makes exactly the block's pages free and merges with free buddies (I2), record_alloc marks exactly the block or refuses leaving the state unchanged, I1 (no page free at two orders) and I2 (buddies always merged) are established by new() and preserved; the region tracker never reports full a region holding a suitable free block (TRK) - established by Allocators::new, preserved by allocate_helper_retry.",
-    "not_decided": "the debug-only bookkeeping of TransactionalMemory::free_helper (rule R9; the rest of the function is verified whole); serialisation round trip beyond the bounded native check C14-X-ser (to_vec/from_bytes are external_body for Verus); the bodies of the resize family and of highest_free_order (see assumptions); minimality of alloc_lowest's result (its contract is alloc's: the returned block was free, exactly it was removed)",
-    "assumptions": ["BuddyAllocator::resize and BuddyAllocator::highest_free_order carry ASSUMED contracts (external_body: an iterator-adapter chain, and a body that assigns self.len last so that the shape invariant does not hold at its inner calls); bounded native checks C14-X-resize / C14-X-hfo run the real bodies against the assumed contracts. BtreeBitmap::resize and RegionTracker::resize are VERIFIED (their iter_mut loops are turned into index loops by extraction rule R14). Allocators::resize_to is VERIFIED against these contracts: it preserves wf and TRK, gives every region the size the new layout says, builds new regions for the capacity of a full region, and leaves unchanged regions untouched"],
+    "not_decided": "the debug-only bookkeeping of TransactionalMemory::free_helper (rule R9; the rest of the function is verified whole); serialisation round trip beyond the bounded native check C14-X-ser (to_vec/from_bytes are external_body for Verus); the body of highest_free_order (see assumptions); growing an allocator from zero pages (resize's precondition excludes it: the real code would compute 2^32 there; no caller does it); minimality of alloc_lowest's result (its contract is alloc's: the returned block was free, exactly it was removed)",
+    "assumptions": ["BuddyAllocator::highest_free_order carries an ASSUMED contract (external_body: `(0..=max_order).rev().find(closure)`, an iterator-adapter chain Verus cannot read): it returns the highest order at which some block is marked free, or None when nothing is; the bounded native check C14-X-hfo runs the real body against it. Every other function of bitmap.rs, buddy_allocator.rs, region.rs and layout.rs is VERIFIED, including BuddyAllocator::resize (both branches: bitmaps resized, the trailing_zeros alignment loop, the descending-order loop; pages below min(old, new) keep their state, new pages are free, a shrink frees nothing; requires that the bitmaps are high enough for the new size - established by BuddyAllocator::new for the capacity of a full region and carried by Allocators::cap_ok - and that an allocator is never grown from zero pages), BtreeBitmap::resize and RegionTracker::resize (rule R14 turns their `for x in &mut v` loops into index loops), Allocators::resize_to, try_shrink and grow"],
 }
 P["C20"] = {
     "level": "proof",
@@ -278,7 +278,7 @@ P["C11"] = {
                                               "InMemoryState::get_region_mut", "Mutex::lock"]},
               {"unit": "txcommit", "functions": ["WriteTransaction::abort_inner"]}],
     "kani": [K["C11-R3"]],
-    "explanation": "Kernel: rebuild = reset + one mark per reachable page. The REAL TransactionalMemory::reset_allocator_state leaves an allocator state that matches the header's layout with EVERY page free (Allocators::new, BuddyAllocator::new: greedy decomposition, lemma_greedy_all_free); the REAL TransactionalMemory::mark_page_allocated accepts a page number only if it names a block inside an existing region of the layout that was entirely free, then exactly its pages stop being free, every other region is untouched and the state stays consistent with the header; a refused page number (order > 20, region or block out of range, overlap with an allocated page) changes no allocator; the REAL WriteTransaction::abort_inner keeps the repair latch set when the rollback fails part way (its pages stay allocated, so the allocator state is never persisted as clean) and restores it after a complete rollback. record_alloc marks exactly the named block (true iff the block lay inside a free block, which it then no longer does, every other page keeps its state) or refuses with the allocator unchanged, I1 and I2 preserved; (R4) Allocators::resize_to - the reconciliation of a loaded allocator state with the layout of the file being opened - gives every region the size the layout says, keeps wf and TRK, marks dropped regions full and leaves unchanged regions untouched (against assumed contracts of the resize family); the allocator-state key codec orders Region(i) by i and before the tracker and the transaction id, which the snapshot loader's range scans rely on.",
+    "explanation": "Kernel: rebuild = reset + one mark per reachable page. The REAL TransactionalMemory::reset_allocator_state leaves an allocator state that matches the header's layout with EVERY page free (Allocators::new, BuddyAllocator::new: greedy decomposition, lemma_greedy_all_free); the REAL TransactionalMemory::mark_page_allocated accepts a page number only if it names a block inside an existing region of the layout that was entirely free, then exactly its pages stop being free, every other region is untouched and the state stays consistent with the header; a refused page number (order > 20, region or block out of range, overlap with an allocated page) changes no allocator; the REAL WriteTransaction::abort_inner keeps the repair latch set when the rollback fails part way (its pages stay allocated, so the allocator state is never persisted as clean) and restores it after a complete rollback. record_alloc marks exactly the named block (true iff the block lay inside a free block, which it then no longer does, every other page keeps its state) or refuses with the allocator unchanged, I1 and I2 preserved; (R4) Allocators::resize_to - the reconciliation of a loaded allocator state with the layout of the file being opened - gives every region the size the layout says, keeps wf and TRK, marks dropped regions full and leaves unchanged regions untouched (BuddyAllocator::resize verified; only highest_free_order assumed); the allocator-state key codec orders Region(i) by i and before the tracker and the transaction id, which the snapshot loader's range scans rely on.",
     "not_decided": "which pages ARE reachable; is_valid_allocator_state's staleness comparison (needs a B-tree); histories and crash points; the tracker's persistent-savepoint pins rebuilt at open (register_persistent_savepoint: one pin per savepoint, also when several savepoints share a transaction) only BOUNDED (native C11-X-pins3)",
 }
 P["C15"] = {
